@@ -52,6 +52,9 @@ def jobs(tier, seed):
         out.append(dict(name=f"stability-S{S}-da{da}", kind="stability", S=S, da=da, devices=1, seed=seed, cost=5))
     for (S, A, E, da) in [(2, 2, 2, 1), (3, 4, 1, 2)]:
         out.append(dict(name=f"greedy-S{S}A{A}E{E}-da{da}", kind="greedy", S=S, A=A, E=E, da=da, devices=1, seed=seed, cost=8))
+        # concrete probabilities and discount factor: everything is linear in rewards and values, so comparisons with
+        # tolerances inside the improvement step stay decidable
+        out.append(dict(name=f"greedy-linear-S{S}A{A}E{E}-da{da}", kind="greedy", linear=True, S=S, A=A, E=E, da=da, devices=1, seed=seed, cost=8))
         out.append(dict(name=f"initial-S{S}A{A}E{E}-da{da}", kind="initial", S=S, A=A, E=E, da=da, devices=1, seed=seed, cost=8))
     return out
 
@@ -221,7 +224,8 @@ def run_stability(job, ob):
             old = policy_sym(pb, S, da, "OLD")
             new = policy_sym(pb, S, da, "NEW")
             solver.policy = old
-            solver._evaluate_policy = lambda policy, starting_values=None: sym("W", (S,))
+            W = sym("W", (S,))
+            solver._evaluate_policy = lambda policy, starting_values=None: W
             solver._extract_policy = lambda: new
             from loguru import logger
             msgs = []
@@ -231,7 +235,7 @@ def run_stability(job, ob):
             finally:
                 logger.remove(hid)
             return dict(old=val_of(old), new=val_of(new), it=st.info.iteration, reported=any("Policy converged" in m for m in msgs),
-                        pol=val_of(st.policy))
+                        pol=val_of(st.policy), W=val_of(W))
     with shadowed():
         outs = list(ex.explore(run))
     seen = set()
@@ -248,7 +252,8 @@ def run_stability(job, ob):
         for i in range(S):
             for k in range(da):
                 same = zx.land(same, zx.eq(r["old"][i, k], r["new"][i, k]))
-        cexf = lambda m, r=r: dict(kind="stability", S=S, da=da, old=kit.model_array(m, r["old"]), new=kit.model_array(m, r["new"]))
+        cexf = lambda m, r=r: dict(kind="stability", S=S, da=da, old=kit.model_array(m, r["old"]), new=kit.model_array(m, r["new"]),
+                                   W=kit.model_array(m, r["W"]))
         ob.reach(f"path{pi_}", o.pc)
         stopped_early = r["it"] == 1
         seen.add(stopped_early)
@@ -275,14 +280,21 @@ def run_greedy(job, ob):
         pb = kit.make_tab(cfg, job["seed"])
         solver = kit.make_solver("pi", pb, max_batch_size=2, max_eval_iter=1)
         with symbolic():
-            L = h["L"] = kit.Lifted(pb)
+            L = h["L"] = kit.Lifted(pb, lift_P=not job.get("linear"))
             pathx.CUR.assume(z3.And(*L.pre))
             solver.policy = policy_sym(pb, S, da, "OLD")
-            solver.gamma = sym("gamma")
-            W = sym("W", (S,))
-            solver._evaluate_policy = lambda policy, starting_values=None: W
+            solver.gamma = lift(Fraction(9, 10)) if job.get("linear") else sym("gamma")
+            Ws = []
+
+            def evaluate(policy, starting_values=None):
+                # every evaluation call returns its own unconstrained vector: evaluating again after the policy was
+                # extracted (or extracting before the last evaluation) shows up as a different term
+                Ws.append(sym(f"W{len(Ws)}_", (S,)))
+                return Ws[-1]
+            solver._evaluate_policy = evaluate
             st = solver.solve(1)
-            return dict(vals=val_of(st.values), pol=val_of(st.policy), W=val_of(W), g=val_of(solver.gamma)[()], aspace=np.asarray(pb.action_space))
+            return dict(vals=val_of(st.values), pol=val_of(st.policy), W=val_of(Ws[0]), Ws=[val_of(w) for w in Ws], g=val_of(solver.gamma)[()],
+                        aspace=np.asarray(pb.action_space))
     with shadowed():
         outs = list(ex.explore(run))
     for pi_, o in enumerate(outs):
@@ -299,13 +311,15 @@ def run_greedy(job, ob):
         B = [kit.zmax_list(row) for row in Q]
         ob.reach(f"path{pi_}", o.pc)
         for i in range(S):
-            ob.prove(f"returned-values-are-evaluation[path{pi_},{i}]", o.pc, zx.eq(r["vals"][i], r["W"][i]))
+            if len(r["Ws"]) == 1:
+                ob.prove(f"returned-values-are-evaluation[path{pi_},{i}]", o.pc, zx.eq(r["vals"][i], r["W"][i]))
             member, idx = kit.policy_row_index(list(r["pol"][i]), r["aspace"])
             ob.prove(f"returned-policy-greedy[path{pi_},{i}]", o.pc, zx.land(member, zx.eq(kit.lookup(Q[i], idx), B[i])),
-                     margin=(kit.lookup(Q[i], idx), B[i], list(np.asarray(L.R, dtype=object).flat) + list(r["W"]), list(np.asarray(L.P, dtype=object).flat) + [r["g"]]),
+                     margin=(kit.lookup(Q[i], idx), B[i], list(np.asarray(L.R, dtype=object).flat) + [x for w in r["Ws"] for x in w], list(np.asarray(L.P, dtype=object).flat) + [r["g"]]),
                      kind="returned policy is greedy with respect to the returned values",
                      cex=lambda m, i=i, r=r: dict(kind="greedy", state=i, cfg=cfg, T=kit.model_array(m, L.T), R=kit.model_array(m, L.R),
-                                                  P=kit.model_array(m, L.P), W=kit.model_array(m, r["W"]), gamma=zx.model_value(m, r["g"])))
+                                                  P=kit.model_array(m, L.P), W=kit.model_array(m, r["W"]), Ws=[kit.model_array(m, w) for w in r["Ws"]],
+                                                  gamma=zx.model_value(m, r["g"])))
     return ob.result()
 
 
@@ -417,12 +431,46 @@ def replay(data):
         s = kit.make_solver("pi", pb, max_batch_size=2, max_eval_iter=1)
         old, new = np.array(c["old"], dtype=np.int32), np.array(c["new"], dtype=np.int32)
         s.policy = jnp.asarray(old)
-        s._evaluate_policy = lambda policy, starting_values=None: jnp.zeros(S)
-        s._extract_policy = lambda: jnp.asarray(new)
-        st = s.solve(2)
-        changed = bool((old != new).any())
-        bad = (st.info.iteration == 1) == changed
-        return bad, f"old policy {old.tolist()} new {new.tolist()}: stopped after {st.info.iteration} iteration(s)"
+        W = np.array(tofloat(c["W"]), dtype=float) if c.get("W") is not None else np.zeros(S)
+        asp = np.asarray(pb.action_space)
+        row = lambda pol: [int(np.where((asp == pol[j]).all(1))[0][0]) for j in range(S)]
+        msgs = []
+        # Property-level oracle on the real improvement step (no stub for the extraction), two realisations of the
+        # counterexample: (a) a problem designed so that the unique greedy policy for W = 0 is the counterexample's improved
+        # policy (reward 1 for that action, 0 otherwise); (b) the job's own problem with the counterexample's W.
+        # With evaluation result W the solver may stop after the first iteration only if the incumbent policy is already
+        # greedy for W, must stop then, and what it returns is greedy for the returned values.
+        for label in ("designed", "model-W"):
+            if label == "designed":
+                Rd = np.zeros((S, A, 1))
+                for j, r_ in enumerate(row(new)):
+                    Rd[j, r_, 0] = 1.0
+                pbx = Tab(S, A, 1, da=da, R=Rd)
+                Wx = np.zeros(S)
+            else:
+                pbx, Wx = pb, W
+            sx = kit.make_solver("pi", pbx, max_batch_size=2, max_eval_iter=1)
+            sx.policy = jnp.asarray(old)
+            sx._evaluate_policy = lambda policy, starting_values=None, Wx=Wx: jnp.asarray(Wx)
+            st = sx.solve(2)
+            Tidx = np.asarray(jax.vmap(jax.vmap(jax.vmap(pbx.state_to_index)))(pbx.T)).reshape(S, A, 1)
+            R, P, g = np.asarray(pbx.R, dtype=float), np.asarray(pbx.P, dtype=float), float(sx.gamma)
+            Q = (P * (R + g * Wx[Tidx])).sum(-1)
+            tol = 1e-7 * max(np.abs(R).max(), np.abs(Wx).max(), 1e-300)
+            greedy = lambda pol: all(Q[j].max() - Q[j, r_] <= tol for j, r_ in enumerate(row(pol)))
+            strictly_worse = lambda pol: any(Q[j].max() - Q[j, r_] > 10 * tol for j, r_ in enumerate(row(pol)))
+            ret = np.asarray(st.policy)
+            bad = []
+            if st.info.iteration == 1 and strictly_worse(old):
+                bad.append("stopped although the incumbent policy can be improved")
+            if st.info.iteration == 2 and greedy(old) and (np.asarray(sx._extract_policy()) == old).all():
+                bad.append("continued although the improvement step changes nothing")
+            if not greedy(ret):
+                bad.append("returned policy is not greedy for the returned values")
+            if bad:
+                msgs.append(f"[{label}] incumbent {old.tolist()} improved {new.tolist() if label == 'designed' else '(real extraction)'}: stopped after "
+                            f"{st.info.iteration} iteration(s), returned {ret.tolist()}: " + "; ".join(bad))
+        return bool(msgs), " | ".join(msgs) or f"incumbent {old.tolist()}: consistent with the property on both realisations"
     if k == "greedy":
         cfg = c["cfg"]
         T = np.array(c["T"], dtype=np.int64)
@@ -431,8 +479,15 @@ def replay(data):
         pb = Tab(cfg["S"], cfg["A"], cfg["E"], da=cfg["da"], T=T, R=R, P=P)
         s = kit.make_solver("pi", pb, max_batch_size=2, max_eval_iter=1)
         s.gamma = jnp.asarray(g)
-        s._evaluate_policy = lambda policy, starting_values=None: jnp.asarray(W)
+        Ws = [np.array(tofloat(w), dtype=float) for w in (c.get("Ws") or [c["W"]])]
+        calls = []
+
+        def evaluate(policy, starting_values=None):
+            calls.append(1)
+            return jnp.asarray(Ws[min(len(calls) - 1, len(Ws) - 1)] + (len(calls) - len(Ws) if len(calls) > len(Ws) else 0.0))
+        s._evaluate_policy = evaluate
         st = s.solve(1)
+        W = np.asarray(st.values, dtype=float)   # greedy with respect to the *returned* values
         Q = (P * (R + g * W[T])).sum(-1)
         asp = np.asarray(pb.action_space)
         pol = np.asarray(st.policy)
